@@ -3662,8 +3662,9 @@ class BaseInstance(BaseClass):
                     handler = self
                 else:
                     return
-        if handler.fast_validate is not None:
-            trait.set_validate(handler.fast_validate)
+        fast_validate = getattr(handler, "fast_validate", None)
+        if fast_validate is not None:
+            trait.set_validate(fast_validate)
 
 
 class Instance(BaseInstance):
